@@ -413,8 +413,14 @@ func ReadWeatherCSV(VWDAT string, startyear int, g *GlobalVarsMain, s *WeatherDa
 			T = d.datetime.YearDay()
 			yrz = 1
 		} else if d.datetime.Day() == 1 && d.datetime.Month() == time.January {
+			// a new year starts: the year read so far has to be complete, and it has to be the year before
+			if T-1 != daysInYear(s.JAR[yrz-1]) || d.datetime.Year() != s.JAR[yrz-1]+1 {
+				return fmt.Errorf("%s Failed to parse file: %s, error: missing days", g.LOGID, VWDAT)
+			}
 			T = 1
 			yrz = yrz + 1
+		} else if d.datetime.Year() != s.JAR[yrz-1] {
+			return fmt.Errorf("%s Failed to parse file: %s, error: missing days", g.LOGID, VWDAT)
 		}
 		if d.datetime.YearDay() != T {
 			return fmt.Errorf("%s Failed to parse file: %s, error: missing days", g.LOGID, VWDAT)
@@ -551,8 +557,14 @@ func ReadWeatherCZ(VWDAT string, startyear int, g *GlobalVarsMain, s *WeatherDat
 			T = d.datetime.YearDay()
 			yrz = 1
 		} else if d.datetime.Day() == 1 && d.datetime.Month() == time.January {
+			// a new year starts: the year read so far has to be complete, and it has to be the year before
+			if T-1 != daysInYear(s.JAR[yrz-1]) || d.datetime.Year() != s.JAR[yrz-1]+1 {
+				return fmt.Errorf("%s Failed to parse file: %s, error: missing days", g.LOGID, VWDAT)
+			}
 			T = 1
 			yrz = yrz + 1
+		} else if d.datetime.Year() != s.JAR[yrz-1] {
+			return fmt.Errorf("%s Failed to parse file: %s, error: missing days", g.LOGID, VWDAT)
 		}
 		if d.datetime.YearDay() != T {
 			return fmt.Errorf("%s Failed to parse file: %s, error: missing days", g.LOGID, VWDAT)
@@ -580,6 +592,14 @@ func ReadWeatherCZ(VWDAT string, startyear int, g *GlobalVarsMain, s *WeatherDat
 	s.transformWeatherData(yrz, CORRK[:])
 
 	return nil
+}
+
+// daysInYear number of days of a calendar year
+func daysInYear(year int) int {
+	if year%4 == 0 && (year%100 != 0 || year%400 == 0) {
+		return 366
+	}
+	return 365
 }
 
 func (s *WeatherDataShared) transformWeatherData(yrz int, corr corrArr) {
